@@ -163,12 +163,22 @@ func c02Stress(c *mon.Ctx, r *mon.Rand) {
 		opts.Reporter = pr
 	}
 	creators := r.Bool() // set up before the root exists: its ticker goroutine reads rec.Delay
-	if creators {
-		var dn uint64
+	// half of the runs: a wide registry (40 subscopes over 4-16 shards), four of
+	// the gauges on the root scope itself, and a reporter whose gauge writes are
+	// slow now and then - the order in which one pass delivers must still be the
+	// order in which it read
+	wide := r.Bool()
+	{
+		var dn, gn uint64
 		rec.Delay = func(k mon.EvKind) {
-			if k == mon.EvAllocGauge {
+			if creators && k == mon.EvAllocGauge {
 				if n := atomic.AddUint64(&dn, 1); n%3 == 0 {
 					time.Sleep(time.Duration(50+n%250) * time.Microsecond)
+				}
+			}
+			if wide && k == mon.EvGauge {
+				if n := atomic.AddUint64(&gn, 1); n%5 == 0 {
+					time.Sleep(time.Duration(20+n%100) * time.Microsecond)
 				}
 			}
 		}
@@ -178,17 +188,27 @@ func c02Stress(c *mon.Ctx, r *mon.Rand) {
 	inj := mon.NewDelayInjector(r.U64(), prof, true)
 	inj.Install()
 	defer inj.Uninstall()
-	root, closer := vNewRoot(opts, interval, uint(r.Range(0, 3)))
+	shards := uint(r.Range(0, 3))
+	nSub := 5
+	if wide {
+		shards, nSub = uint(r.Range(4, 16)), 40
+	}
+	root, closer := vNewRoot(opts, interval, shards)
 	const G = 64
 	nUpd := 4
 	gauges := make([]tally.Gauge, G)
 	names := make([]string, G)
 	for i := range gauges {
-		sc := root.SubScope(fmt.Sprintf("s%d", i%5))
+		if wide && i < 4 {
+			gauges[i] = root.Gauge(fmt.Sprintf("g%d", i))
+			names[i] = fmt.Sprintf("g%d", i)
+			continue
+		}
+		sc := root.SubScope(fmt.Sprintf("s%d", i%nSub))
 		gauges[i] = sc.Gauge(fmt.Sprintf("g%d", i))
-		names[i] = fmt.Sprintf("s%d.g%d", i%5, i)
+		names[i] = fmt.Sprintf("s%d.g%d", i%nSub, i)
 	}
-	desc := map[string]interface{}{"cached": cached, "interval_us": interval.Microseconds(), "gauges": G, "concurrent_first_use_of_other_gauges": creators}
+	desc := map[string]interface{}{"cached": cached, "interval_us": interval.Microseconds(), "gauges": G, "concurrent_first_use_of_other_gauges": creators, "wide_registry_root_gauges_slow_writes": wide, "shards": shards}
 	c.LogCase(fmt.Sprint(desc))
 	epochs := 60
 	last := make([]uint64, G)
